@@ -81,13 +81,13 @@ fn generate(seed: u64, tier: Tier) -> Value {
 }
 
 /// Strings a hostile peer may put where the library expects an identifier.
-fn hostile_string(style: &str, plain: &str, shift: usize, sr: &mut Rng) -> String {
+pub fn hostile_string(style: &str, plain: &str, shift: usize, sr: &mut Rng) -> String {
     const WIDE: [char; 6] = ['\u{e9}', '\u{20ac}', '\u{1f980}', '\u{7ff}', '\u{800}', '\u{10ffff}'];
     match style {
         "empty" => String::new(),
         // a multi-byte character straddling byte 36 (the length of a textual UUID), 32, 40 or 64
         "uni_at_36" => {
-            let cut = *sr.pick(&[36usize, 36, 36, 32, 40, 64, 16, 8]);
+            let cut = *sr.pick(&[36usize, 36, 36, 32, 40, 64, 16, 8, 8, 4, 12, 24, 48, 128, 255, 256]);
             let w = *sr.pick(&WIDE);
             let lead = cut - 1 - shift % (w.len_utf8() - 1);
             format!("{}{}{}", "a".repeat(lead), w, "-tail".repeat(sr.usize_below(4)))
